@@ -12,4 +12,6 @@ MCFileOf == [k \in Keys |-> IF k[1] = "/a" /\ "f" \in Files THEN "f"
                             ELSE IF k[1] = "/b" /\ "g" \in Files THEN "g" ELSE "-"]
 
 ClockBound == clock <= MaxClock
+\* `op` only describes the last step (read by the action properties); it is not part of the view
+SView == <<entries, total, clock, last, files, fhist, pc, rq, resp>>
 =============================================================================
